@@ -679,6 +679,8 @@ def drive_runs(O, tier, rng):
             out.append(("Row.set_value into runs", payload, "(K3 %d%%nat [%s] [%s] %s %s)" % (x, "; ".join(before), "; ".join(after), c_val(v), c_res(okr, got)), "runs/Row-" + vclass(v)))
     for y in range(6):
         for x in range(6):
+            if tier != "thorough" and (x + y) % 2:
+                continue                                      # quick: a chequerboard of the 36 positions
             for v in (vals if tier == "thorough" else [vals[(x + 3 * y) % len(vals)]]):
                 t = make_table(); before = expand_table(node_of(t), 6)
                 ok, _ = limited(lambda: t.set_value((x, y), v))
